@@ -268,6 +268,8 @@ pub fn bin_program(id: u64) -> (String, String) {
         2 | 6 => "module M\n[deprecated(\"use \\\"New\\\" caf\u{e9} \\\\ instead\")] struct Old {}\nstruct S {\n\ta: Old,\n  b: Sequence<Old>\n}\n".to_owned(),
         3 => "module M\n[deprecated] struct Old {}\nstruct S { a: Old, x: tag(1) int32, y: tag(2) int32?, z: tag(2) bool? }\n".to_owned(),
         4 => "module M\nstruct {\n".to_owned(),
+        // a compact struct with two fields of the same illegal key type: one error with two notes of the same text
+        7 => "module M\ncompact struct K {\n  x: float32\n  y: float32\n}\nstruct U { d: Dictionary<K, bool> }\n".to_owned(),
         _ => "module M\n/// See {@link Missing} and {@link AlsoMissing}.\n/// @param nope: no such parameter\nstruct A { b: B }\nstruct B { a: Sequence<A?> }\n[deprecated] struct Old {}\nstruct U { o: Old }\n".to_owned(),
     };
     (name.to_owned(), text)
@@ -310,6 +312,15 @@ impl Family for EmitBin {
         let gen = case["gen"].as_str().unwrap_or("none");
         if gen == "missing" {
             argv.extend(["-G".into(), "./no-such-generator".into()]);
+        }
+        if gen == "okwarn" {
+            // a working generator whose reply carries one file and one diagnostic of its own
+            let g = dir.join("gen1");
+            if std::fs::hard_link(crate::fam_driver::fakegen_bin(), &g).is_err() {
+                let _ = std::fs::copy(crate::fam_driver::fakegen_bin(), &g);
+            }
+            let _ = std::fs::write(dir.join("gen1.json"), json!({"beh": "okwarn", "index": 1}).to_string());
+            argv.extend(["-G".into(), "./gen1".into()]);
         }
         let rendered = json!({"argv": argv, "file": text, "driver": case["driver"]});
         let key = hash_str(&rendered.to_string());
